@@ -80,7 +80,10 @@ OpsOf(cls, s) ==
                                             wc[1]), wc[2]) : wc \in {RandomElement(WrapCombos)}}
     \* relay (optional field, only ever put on requests that are NOT valid): the request also carries registration info
     \* re-wrapped by a registered intermediate for its key and nonce - the relayed shape does not make it valid
-    [] cls = "Submit"     -> {IF ~ValidReq(v) /\ v.api = "fetch" /\ RandomElement(1..2) = 1 THEN Merge(v, [relay |-> TRUE]) ELSE v :
+    \* during (optional field, likewise only on requests that are NOT valid): a valid authorisation of the same node is in
+    \* flight, held up at its storage write, while the request is submitted - every call validates its own request
+    [] cls = "Submit"     -> {IF ~ValidReq(v) /\ v.api = "fetch" /\ RandomElement(1..2) = 1 THEN Merge(v, [relay |-> TRUE])
+                              ELSE IF ~ValidReq(v) /\ v.api = "authorize" /\ RandomElement(1..2) = 1 THEN Merge(v, [during |-> TRUE]) ELSE v :
                                 v \in {v \in {SubRand(i, Muts) : i \in 1..6} : v \in SubmitOps}}
     [] cls = "SubmitWin"  -> {v \in {SubRand(i, {"none"}) : i \in 1..6} : v \in SubmitOps}
     [] cls = "CreateRequest" -> {[op |-> "CreateRequest", k |-> "fresh", e |-> "fresh", n |-> "fresh", s |-> NONE,
